@@ -29,7 +29,7 @@ ASSUMPTIONS = [
 ]
 REQUIRED_CLASSES = {
     "random": ["entangling", "measuring", "random_outcome", "det_outcome_1", "op_after_mcr_on_register",
-               "wrapper_len>=2", "emitter+photon", "initial_state", "creg_reused"],
+               "wrapper_len>=2", "emitter+photon", "initial_state", "creg_reused", "compiler_reused"],
     "large": ["entangling", "measuring", "random_outcome", "register_index>=10", "emitter+photon"],
 }
 
@@ -97,7 +97,7 @@ def check_order(desc, reported):
     return None
 
 
-def run_config(desc, backend, setting, seed, init, sub="compile"):
+def run_config(desc, backend, setting, seed, init, sub="compile", comp=None):
     import graphiq.backends.compiler_base as cb
     from graphiq.state import QuantumState
 
@@ -105,7 +105,7 @@ def run_config(desc, backend, setting, seed, init, sub="compile"):
     icls = "measuring" if any(gc.measuring(d) for d in desc["ops"]) else "unitary"
     site = "%s:%s" % (backend, setting if setting != "probabilistic" else "prob")
     circ = gc.build(desc)
-    comp = _compilers()[backend]()
+    comp = _compilers()[backend]() if comp is None else comp
     comp.measurement_determinism = setting
     v0 = None
     init_state = None
@@ -192,8 +192,12 @@ def check_random(case):
     n_random = n_det1 = 0
     finals = {}
     for backend in ("stab", "dm"):
+        # one compiler object per backend, re-used for the three settings (odd seeds): nothing may carry over between compiles
+        shared = _compilers()[backend]() if case["seed"] % 2 else None
+        if shared is not None:
+            cl.append("compiler_reused")
         for setting in SETTINGS:
-            ref = run_config(desc, backend, setting, case["seed"], init)
+            ref = run_config(desc, backend, setting, case["seed"], init, comp=shared)
             n_random += ref.n_random
             n_det1 += ref.n_det1
             finals[(backend, setting)] = ref.v
